@@ -135,21 +135,23 @@ def cube(d, collide, steps, prefix, third=False, same=False):
 COLLIDE = ["ref", "remote", "relative", "format", "format-str", "pattern"]
 
 
+QUICK = {7: ["ref", "remote", "format-str"], 4: ["relative", "pattern", "format"]}
+
+
 def conditions(tier, seed, active):
     import itertools
     out = []
     quick = tier == "quick"
     steps = 4 if quick else 6
     for d in (3, 4, 6, 7):
-        for col in COLLIDE:
-            if quick and d in (3, 6) and col in ("format", "pattern", "format-str"):
-                continue
+        cols = QUICK.get(d, []) if quick else COLLIDE
+        for col in cols:
             for prefix in itertools.product((0, 1), repeat=2):
                 out.append(dict(id="two/%s/d%d/steps%d/prefix%s" % (col, d, steps, "".join(map(str, prefix))), module=__name__, factory="cube",
                                 params=dict(d=d, collide=col, steps=steps, prefix=list(prefix)), timeout=1500 if quick else 3600,
                                 tags=["errors"], witness=["errors"] if prefix == (0, 1) and d == 7 else []))
-        for col in ("ref", "remote"):
-            if quick and d in (3, 6):
+        for col in (("ref",) if quick else ("ref", "remote")):
+            if quick and d != 7:
                 continue
             for prefix in itertools.product((0, 1), repeat=2):
                 out.append(dict(id="same-instance/%s/d%d/steps%d/prefix%s" % (col, d, steps, "".join(map(str, prefix))), module=__name__, factory="cube",
